@@ -261,3 +261,30 @@ void h_Sz_actRight_generic(void)
   MapFM r = Sz_actRight(o, ket);
   REACH("exit");
 }
+
+/* ======================= REMARKS / FINDINGS =======================
+ * 1. FINDING (h_N_actRight_generic, h_Sz_actRight_generic FAIL: N_actRight.postcondition.4, Sz_actRight.postcondition.4; reproduced natively):
+ *    N::actRight and Sz::actRight always return the entry ket -> value, also when the value is 0, whereas the generic Operator::actRight
+ *    of the same polynomial drops amplitudes below epsilon:  N(2).actRight(|00>).size() == 1 but (n(0)+n(1)).actRight(|00>).size() == 0;
+ *    Sz(2,{0}).actRight(|11>).size() == 1, generic 0.  C05 says the presets "act on every Fock state exactly like their generic polynomial
+ *    forms".  No library code calls actRight on an N or Sz object (FieldOperator::mapsTo / FieldOperatorPart / HamiltonianPart call it on
+ *    C, Cdag, N_offdiag and the Hamiltonian), so nothing downstream is affected today; a caller that tests `result.size() > 0` (as mapsTo does)
+ *    would see a "non-annihilated" state.  Minimal patch: `if (std::abs(v) > epsilon) output[ket] = v;` in both functions.
+ * 2. Operator::actRight(ket): the amplitude of a result state is accumulated in the order of the monomials (std::map order); the test that
+ *    drops an entry is |sum| < epsilon (not 100 epsilon as in operator+=).  The per-monomial filter `std::abs(melem) > epsilon` never fires
+ *    (melem is +-1).
+ * 3. commutes(): product and comparison are oracles here; what is proved is the wiring (A*B against B*A, in this order, through operator==).
+ *
+ * ======================= MUTATION RECORD (tools/try_mutant.py; all killed) =======================
+ * actRight(ket): `+=` -> `-=`                                   Operator_actRight_ket_wrapped_for_contract_checking.6 (loop-invariant step: value of the ghost entry)
+ * actRight(ket): __is_zero `<` -> `>`                           Operator_actRight_ket.postcondition.2
+ * actRight(ket): `std::abs(melem) > eps` -> `<`                 Operator_actRight_ket_wrapped_for_contract_checking.5/.6
+ * getMatrixElement(bra,ket): `== end()` -> `!= end()`           Operator_getMatrixElement.postcondition.2
+ * getMatrixElement(bra,ket): `output[bra]` -> `output[ket]`     Operator_getMatrixElement.postcondition.2
+ * commutes: second product `(*this)*rhs`                        Operator_commutes.postcondition.1
+ * commutes: result negated                                      Operator_commutes.postcondition.1
+ * N::actRight: value negated                                    N_actRight.postcondition.2
+ * N::actRight: stored under ERROR_FOCK_STATE                    N_actRight.postcondition.1/.3
+ * Sz::actRight: value doubled                                   Sz_actRight.postcondition.2
+ * Sz::actRight: assignment removed                              Sz_actRight.postcondition.3
+ */
